@@ -80,6 +80,9 @@ def record_tree(root, lines, source_ids=None):
         l0 = int(s.lines[0]) if s is not None and s.lines and s.lines[0] else 0
         l1 = int(s.lines[1]) if s is not None and s.lines and s.lines[1] else l0
         whole = bool(s is not None and s.string is not None and l0 > 0 and s.string.split('\n') == lines[l0 - 1:l1])
+        if whole and type(obj).__name__ in ('Comment', 'CommentBlock'):
+            # an inline comment records the whole line it shares with a statement: only comment-only lines count
+            whole = all(not l.strip() or l.lstrip().startswith('!') for l in lines[l0 - 1:l1])
         oid = 0
         if source_ids is not None and s is not None:
             oid = source_ids.get(id(s), 0)
